@@ -65,11 +65,13 @@ SeqToSet(s) == {s[i] : i \in 1..Len(s)}
 
 OpNames == {"MakeScalar", "MakeVector", "MakeUnknown", "MakeCorrelated",
             "DeleteParameter", "GetParameterValue", "NewAlloc",
-            "SetFrequencyVector", "SetZ0", "AddStd", "Solve", "NewFree",
+            "SetFrequencyVector", "SetZ0", "SetMError", "AddStd", "Solve",
+            "NewFree",
             "AddCalibration", "DeleteCalibration", "FindCalibration", "Get",
             "Prop", "SetPrecision", "Save", "Free"}
 
-NeedsNew == {"SetFrequencyVector", "SetZ0", "AddStd", "Solve", "NewFree"}
+NeedsNew == {"SetFrequencyVector", "SetZ0", "SetMError", "AddStd", "Solve",
+             "NewFree"}
 
 PropOpOf(ev) ==
     CASE ev.kind = "Set" -> [kind |-> "Set", path |-> ev.path,
@@ -93,6 +95,7 @@ OpOf(ev, s) ==
                      cols |-> ev.cols, nf |-> ev.nf]
          [] ev.e = "SetFrequencyVector" -> b @@ [n |-> ev.n, fv |-> ev.fv]
          [] ev.e = "SetZ0" -> b @@ [n |-> ev.n, z |-> ev.z]
+         [] ev.e = "SetMError" -> b @@ [n |-> ev.n, cls |-> ev.cls]
          [] ev.e = "AddStd" ->
                b @@ [n |-> ev.n, std |-> [shape |-> ev.shape, ports |-> ev.ports,
                                           hs |-> ev.hs, ex |-> ev.ex]]
@@ -105,7 +108,8 @@ OpOf(ev, s) ==
          [] ev.e = "Get" -> b @@ [what |-> ev.what, ci |-> ev.ci]
          [] ev.e = "Prop" -> b @@ [ci |-> ev.ci, pop |-> PropOpOf(ev)]
          [] ev.e = "SetPrecision" -> b @@ [p |-> ev.p, which |-> ev.which]
-         [] ev.e \in {"Free", "Save"} -> b
+         [] ev.e = "Save" -> b @@ [file |-> ev.file]
+         [] ev.e = "Free" -> b
 
 PropValMatches(kind, r, ev) ==
     CASE kind \in {"Set", "SetSub", "Del"} -> TRUE
@@ -155,6 +159,7 @@ ObsOK(e, s, o) ==
                \A i \in 1..Len(NamePool) : o.find[i] = FindVal(s, NamePool[i]),
                <<l, e, "obs.find",
                  [i \in 1..Len(NamePool) |-> FindVal(s, NamePool[i])]>>)
+    /\ Explain(o.fn = s.fname, <<l, e, "obs.filename", s.fname>>)
     /\ Explain(DocIs(o.gprops, s.gprops), <<l, e, "obs.gprops", s.gprops>>)
     /\ \A i \in 1..Len(o.pv) :
           Explain(PVRowOK(s, i - 1, o.pv[i]),
@@ -239,6 +244,7 @@ TLoad ==
                                                 src.slots[c].name = nm]
                     S == FPut(stores, ev.vc,
                            [InitStore EXCEPT
+                              !.fname = ev.file,
                               !.gprops = src.gprops,
                               !.slots = [c \in {i - 1 : i \in liv} |->
                                  IF src.dprec >= 2 THEN slotOf(o.slots[c + 1].name)
